@@ -63,6 +63,22 @@ THEOREMS = [
     (M, "C04.inc_staging_reparses_partial", ".inc (CAN_COPY): a localization with any skip/missing entry is staged as the reference BYTES; if these encode a CR-free printed list of #define records the staged file parses to exactly them"),
     (M, "C04.android_merge_spec", "Android, complete: no skip -> byte copy (missing strings not added); only junk skips (span (0,0)) -> whole text written back; one entity skip (span None) -> text written TWICE; >= 2 skips with an entity -> TypeError"),
     (M, "C04.android_bytes_spec", "Android on bytes: the junk case re-encodes the decoded text, the entity case doubles it"),
+    # ---- round 5: sessions (one comparer, a sequence of jobs)
+    (M, "C04.session_step_stateless", "ONE step of the comparer state machine (state = observers + merge stage): whatever the state, what a compare/add/remove job stages is jobOut(job, project filters); the parser is looked up per NAME in the generated __constructors table"),
+    (M, "C04.session_merge_is_pointwise", "SESSION = POINTWISE: the outcomes of a sequence of jobs on ONE comparer are the stateless per-job outcomes, no state is carried between files"),
+    (M, "C04.session_filters_fixed", "no job changes the project filters of the comparer's observers"),
+    (M, "C04.session_stage_is_fold", "the merge stage after a session = the initial stage with every staged outcome written at its job's merge path, in job order; nothing else is created, changed or removed"),
+    (M, "C04.session_returns", "a session over files without a legacy module always returns: the observers never raise"),
+    (M, "C04.session_equals_fresh", "job i of a session stages exactly what the same job stages on a fresh comparer of its own (any quiet level)"),
+    (M, "C04.session_job_independent_of_history", "the same job after two different histories (comparers with the same filters) stages the same"),
+    (M, "C04.session_job_file_kept", "pairwise distinct merge paths: what a job staged is at its path at the end of the session byte for byte, whatever ran before or after"),
+    (M, "C04.session_order_irrelevant", "pairwise distinct merge paths: any two orders of the same jobs leave the same file at every path (unknown notes.xml before or after Android strings.xml)"),
+    (M, "C04.parser_by_name_witness", "what the generated table says for look-alike names: strings.xml / strings-more.xml / res/values/strings.xml Android; notes.xml, values.xml, extra.xml, strings.xml.orig, foo.properties.orig, unknown.txt, README no parser; .properties/.inc/.ini/.pot by extension (decide)"),
+    (M, "C04.cached_session_spec", "the regression CLASS as a model: a comparer that remembers parser lookups under key(name) stages, per job, the stateless function fed with what the memory answers"),
+    (M, "C04.cached_session_eq_of_sufficient_key", "the cache is sound if it is keyed by everything the result depends on: key a = key b -> getParser agrees on a, b implies the remembering comparer IS the real one"),
+    (M, "C04.name_key_sufficient", "the whole name is such a key"),
+    (M, "C04.ext_key_insufficient_witness", "negation witness: the file extension is NOT: notes.xml / strings-more.xml share .xml and differ in getParser"),
+    (M, "C04.ext_cache_breaks_session_witness", "the missed regression in the model (decide): keyed by extension, [notes.xml, missing strings-more.xml] stages ENGLISH for the Android file, [strings.xml, notes.xml, missing extra.xml] re-encodes notes.xml CRLF->LF and stages nothing for extra.xml; the real model copies verbatim / stages nothing / stages the reference"),
 ]
 PARTIAL = [
     "re-parse claims (staged file re-compares with no junk / nothing missing / localized values kept) are PROVED only for the printed classes of C02 "
@@ -80,6 +96,9 @@ TRUSTED = [
     "hand-written model CLModel/Compare/MergeBytes.lean: UTF-8 decoder (errors=replace) + universal newlines + strict encoder around the text model, and the "
     "missing-entity loop composed with the Observer model (tied by c04.decode / c04.encode / c04.mergeb on real files and direct merge calls, c04.qmerge on real comparisons with quiet 0-4 and filters)",
     "file system effects are observed with sys.addaudithook + directory listings + input hashes (oracle side), not modelled",
+    "hand-written model CLModel/Compare/MergeSession.lean: the comparer as a state machine over compare/add/remove jobs (observers, files and directories of the merge "
+    "stage), parser chosen per name by the generated table; tied by c04.session (staged bytes of every job of a real session on ONE comparer, final stage, directories, "
+    "missing/report counters; the per-job entity inputs come from an independent parse and a fresh comparer) and c04.capsof (getParser on look-alike names)",
 ]
 ASSUMPTIONS = ["reference validates without errors and warnings against itself; localization has no duplicate keys (cases violating the precondition are skipped and counted)"]
 LEVEL_TEXT = ("Lean 4 theorems about the splice algorithm of l10n-merge for ALL texts/skip lists (text spec, subsequence property for skip-only "
@@ -89,7 +108,9 @@ LEVEL_TEXT = ("Lean 4 theorems about the splice algorithm of l10n-merge for ALL 
               "tied to ContentComparer.merge by replaying the exact arguments of real runs and by direct calls on files with CRLF/CR/BOM/ill-formed bytes; for printed "
               ".properties/.ini/.dtd/.inc texts the staged text is proved to re-parse to exactly the expected entities without junk; Android is characterised completely; "
               "the end-to-end claims (re-compare is clean and complete, per-key values, inputs untouched, nothing written outside the merge path, also through "
-              "compareProjects with a merge stage) are decided on the real code per generated case")
+              "compareProjects with a merge stage) are decided on the real code per generated case; round 5: the comparer as a state machine over "
+              "SEQUENCES of jobs - what a job stages is proved independent of the comparer's state and history (session = pointwise, stage = fold, order "
+              "irrelevant, a parser memory is sound iff keyed by what getParser depends on; the extension is not), tied by whole real sessions on one comparer")
 LEVEL_NOTE = ("trusted: Lean kernel, merge / byte-merge / observer model correspondences, parser model correspondence (C01/C02), audit-hook observation; re-parse stability is proved "
               "for printed .properties (any cuts), .dtd (entity cuts, appends), .ini (append), .inc (copy) texts only; F4/F14/F17 are kernel-checked negations, F5 is characterised exactly (android_merge_spec); "
               "observed outside the property text: --clobber-merge raises TypeError (unhashable Matcher) on the unchanged tree")
@@ -1047,6 +1068,295 @@ def check_expect_exact(case, v, merged, mp):
 
 
 
+# ===================================================================== round 5: SESSIONS (one comparer, a sequence of jobs)
+
+# file names by KIND, by construction (what the tool documents: Android resources are `strings*.xml`, the other formats go
+# by extension, anything else is a file of unknown type).  Look-alikes on purpose: same extension / different kind,
+# same stem / different format, known extension followed by another one, names without extension, sub-directories.
+SESSION_NAMES = {
+    "android": ["strings.xml", "strings-more.xml", "res/values/strings.xml", "values-de/strings_extra.xml", "mystrings.xml",
+                "strings/more.xml"],
+    "unknown": ["notes.xml", "values.xml", "extra.xml", "res/values/colors.xml", "foo.properties.orig", "a.dtd.bak",
+                "unknown.txt", "README", "sub/Makefile", "a.ini.in", "strings.xml.orig", "a.inc.txt", "a", "string.xml"],
+    "properties": ["a.properties", "sub/b.properties", "strings.properties", "notes.properties"],
+    "dtd": ["a.dtd", "sub/a.dtd", "strings.dtd", "x/y/notes.dtd"],
+    "ini": ["a.ini", "sub/x.ini"],
+    "inc": ["a.inc", "defines.inc", "sub/a.inc"],
+    "ftl": ["a.ftl", "sub/strings.ftl", "notes.ftl"],
+    "po": ["a.po", "sub/b.pot"],
+}
+UNKNOWN_XML = [
+    '<?xml version="1.0" encoding="utf-8"?>\n<notes>\n  <note id="n%d">erste Notiz</note>\n</notes>\n',
+    '<?xml version="1.0" encoding="utf-8"?>\n<resources>\n  <color name="c%d">#fff</color>\n  <string name="s">x</string>\n</resources>\n',
+    '<resources>\n  <string name="k%d">öffnen</string>\n  <string>noname</string>\n</resources>\n',
+    '<notes><note>not closed %d\n',
+    'no xml at all %d\nsecond line\n',
+    '<?xml version="1.0" encoding="utf-8"?>\n<resources>\n  <string name="first%d">eins</string>\n</resources>\n',
+]
+
+
+def session_job(kind, name, mode, rng, dirty=False):
+    """one job of a session: bytes (latin-1 transport) of the files that exist for this mode, by construction"""
+    job = {"fmt": kind, "name": name, "mode": mode, "ref": None, "l10n": None, "keys": []}
+    if kind == "unknown":
+        if name.endswith(".xml"):
+            rt = rng.choice(UNKNOWN_XML) % rng.randrange(10)
+            lt = rng.choice(UNKNOWN_XML) % rng.randrange(10, 20)
+        else:
+            rt = "".join("k%d: v %s\n" % (j, rng.choice(R.WORDS)) for j in range(rng.randrange(1, 4)))
+            lt = rt + "lokalisiert %d\n" % rng.randrange(100)
+        rb, lb = rt.encode("utf-8"), lt.encode("utf-8")
+        shape = rng.random()
+        if shape < 0.6:
+            lb = lb.replace(b"\n", b"\r\n")
+        elif shape < 0.75:
+            lb = byte_variant(lt, rng.choice(["latin1", "bad-utf8", "cr", "bom"]), rng)
+        if rng.random() < 0.4:
+            rb = rb.replace(b"\n", b"\r\n")
+    else:
+        recs, kinds = R.gen_reference(kind, rng, n=rng.randrange(1, 5))
+        job["keys"] = [k for k, _, _ in recs]
+        ref = R.print_file(kind, recs)
+        r = rng.uniform(0.7, 1.0) if dirty else rng.random()
+        if r < 0.4:
+            l10n, plan = R.derive_l10n(kind, recs, kinds, rng, clean=True)
+        elif r < 0.7 or kind == "android" and r < 0.9:
+            l10n, plan = R.derive_l10n(kind, recs, kinds, rng, allow_break=False, allow_junk=False)
+        else:
+            l10n, plan = R.derive_l10n(kind, recs, kinds, rng)
+        rb, lb = ref.encode("utf-8"), l10n.encode("utf-8")
+        if rng.random() < 0.3:
+            lb = lb.replace(b"\n", b"\r\n")
+        if rng.random() < 0.15:
+            rb = rb.replace(b"\n", b"\r\n")
+    if mode != "remove":
+        job["ref"] = to_latin(rb)
+    if mode != "add":
+        job["l10n"] = to_latin(lb)
+    return job
+
+
+def gen_session_cases(ctx):
+    rng = ctx.rng("c04-sessions")
+    cases = []
+    n = ctx.n(70, 900)
+    kinds_all = list(SESSION_NAMES)
+    for i in range(n):
+        shape = i % 10
+        with_tables = i % 7 == 6
+        plan = []                               # (kind, mode | None)
+        if shape == 0:                          # unknown .xml first, then a MISSING Android file
+            plan = [("unknown.xml", rng.choice(["compare", "add"])), ("android", "add")]
+        elif shape == 1:                        # Android first, then unknown .xml (compared / missing / obsolete)
+            plan = [("android", rng.choice(["compare", "add"])), ("unknown.xml", "compare"), ("unknown.xml", rng.choice(["add", "remove"]))]
+        elif shape == 2:                        # the same, with other files in between
+            plan = [(rng.choice(["android", "unknown.xml"]), None), (rng.choice(kinds_all), None),
+                    (rng.choice(["android", "unknown.xml"]), None), (rng.choice(["android", "unknown.xml"]), None)]
+        elif shape == 3:                        # same stem, different formats (+ look-alikes of the extension)
+            plan = [(k, None) for k in rng.sample(["properties", "dtd", "ini", "inc", "unknown", "ftl"], 4)]
+        elif shape == 4:                        # several dirty comparisons of one format, different directories
+            k = rng.choice(["properties", "dtd", "ini", "ftl", "inc"])
+            plan = [(k, "compare")] * rng.randrange(2, 4) + [(rng.choice(kinds_all), None)]
+        else:
+            plan = [(rng.choice(kinds_all + ["unknown.xml", "android"]), None) for _ in range(rng.randrange(2, 7))]
+        if rng.random() < 0.3:
+            rng.shuffle(plan)
+        used, jobs = set(), []
+        for kind, mode in plan:
+            pool_ = SESSION_NAMES["unknown" if kind == "unknown.xml" else kind]
+            if kind == "unknown.xml":
+                pool_ = [x for x in pool_ if x.endswith(".xml")]
+            if with_tables and kind == "po":
+                continue
+            free = [x for x in pool_ if x not in used]
+            if not free:
+                continue
+            name = rng.choice(free)
+            used.add(name)
+            mode = mode or rng.choice(["compare"] * 13 + ["add"] * 5 + ["remove"] * 2)
+            jobs.append(session_job("unknown" if kind == "unknown.xml" else kind, name, mode, rng, dirty=(shape == 4 and mode == "compare")))
+        if len(jobs) < 2:
+            continue
+        case = {"session": i, "jobs": jobs, "quiet": rng.choice([0, 0, 0, 1, 2, 3, 4]), "verdicts": None, "tag": "session-shape%d" % min(shape, 5)}
+        if with_tables:
+            allkeys = sorted({k for j in jobs for k in j["keys"]})
+            case["verdicts"] = [None if rng.random() < 0.2 else {k: rng.choice(["error", "error", "error", "warning", "ignore"]) for k in allkeys}
+                                for _ in range(1 if rng.random() < 0.7 else 2)]
+            case["file_verdict"] = rng.choice(["error", "ignore", "warning"])
+        cases.append(case)
+    return cases
+
+
+def session_job_oracle(case, ji, v):
+    """what the property promises for job `ji` of a session — it mentions nothing but this job's files: (message, finding)"""
+    job = case["jobs"][ji]
+    c = {"fmt": job["fmt"], "mode": job["mode"]}
+    if case.get("verdicts") is not None:
+        c["required"] = {keystr(k) for k in job["keys"] if key_verdict(case, k) == "error"}
+    bad = []
+    if v.get("foreign_changes"):
+        bad.append(("the job changed other files of the merge stage than its own merge path: %s" % v["foreign_changes"][:4], None))
+    if v.get("final") != v.get("merged"):
+        bad.append(("the file staged by this job was changed by a later job of the session", None))
+    if "job_exc" in v:
+        return bad + oracle(c, v["job_exc"])
+    if job["mode"] == "remove":
+        bad.extend((m, None) for m in generic_fs_oracle(v))
+        if not v.get("merged_is_l10n"):
+            bad.append(("obsolete file not staged as a byte copy", None))
+        return bad
+    return bad + oracle(c, {"r": v})
+
+
+def session_line(case, res):
+    """the `c04.session` operation for a real session, or None if a job is outside the model's input language; the
+    per-job entity inputs come from the INDEPENDENT parse and from the job's run on a FRESH comparer, never from the session"""
+    vd = case.get("verdicts")
+    spec = "n" if vd is None else "".join("n" if t is None else "f" for t in vd)
+    toks = ["c04.session", str(case["quiet"]), spec, VERDICT_CHAR[case.get("file_verdict", "error")], str(len(case["jobs"]))]
+    for job, v in zip(case["jobs"], res["jobs"]):
+        mode = job["mode"]
+        ents, skips, nref = [], [], 0
+        if v.get("has_parser") and mode == "add":
+            if v.get("ref_parse") is None:
+                return None
+            nref = len(v["ref_parse"]["entities"])
+        if v.get("has_parser") and mode == "compare":
+            if v.get("ref_parse") is None or v.get("l10n_parse") is None or "fresh_exc" in v and v["fresh_exc"] != "TypeError":
+                return None
+            calls = v.get("fresh_calls") or []
+            if not calls or calls[-1]["contents"] is None:
+                return None
+            rents = v["ref_parse"]["entities"]
+            rk = [keystr(e[0]) for e in rents]
+            if len(set(rk)) != len(rk) or any(x[3] is None for x in calls[-1]["skips"]):
+                return None
+            lk = {keystr(e[0]) for e in v["l10n_parse"]["entities"]}
+            ents = [(e[0] if isinstance(e[0], str) else keystr(e[0]), e[2]) for e in rents if keystr(e[0]) not in lk]
+            skips = calls[-1]["skips"]
+        toks += [mode[0], C.enc(job["name"]), C.enc(job["name"]), C.enc(job["l10n"] or ""), C.enc(job["ref"] or ""), str(nref), str(len(ents))]
+        for k, ra in ents:
+            vs = "e" if vd is None else "".join(VERDICT_CHAR[(t.get(k, "error") if t is not None else "error")] for t in vd)
+            toks += [C.enc(k), vs, C.enc(ra)]
+        toks.append(str(len(skips)))
+        for s0, e0, isj, ra in skips:
+            toks += [str(-1 if s0 is None else s0), str(-1 if e0 is None else e0), "1" if isj else "0", C.enc(ra or "")]
+    return " ".join(toks)
+
+
+def session_expect(case, res):
+    outs = [v["job_exc"]["exc"] if "job_exc" in v else fileout(v["merged"]) for v in res["jobs"]]
+    files = ["%s=%s" % (C.enc(k), C.enc(b)) for k, b in sorted(res["final"].items())]
+    so = (res.get("summary") or [{}])[0]
+    return "%s | files %s | dirs %s | missing=%d report=%d" % (" ; ".join(outs), " ".join(files), " ".join(C.enc(d) for d in sorted(res["dirs"])),
+                                                              so.get("missing", 0), so.get("report", 0))
+
+
+def session_violations(case, r):
+    """[(job index | None, message, finding)] for one session result"""
+    if "r" not in r:
+        return [(None, "session adapter raised %s %s" % (r.get("exc"), r.get("msg")), None)]
+    res = r["r"]
+    out = []
+    for ji, v in enumerate(res["jobs"]):
+        v["final"] = res["final"].get(case["jobs"][ji]["name"])
+        bad = session_job_oracle(case, ji, v)
+        if bad and bad[0][0] == "PRECONDITION":
+            out.append((ji, "PRECONDITION", None))
+            continue
+        for msg, fid in bad[:3]:
+            out.append((ji, msg, fid))
+    return out
+
+
+def run_sessions(ctx, out):
+    """ONE ContentComparer per session handles 2-6 jobs (compare / add / remove) on files of different kinds below one merge
+    stage.  Oracle by construction per job (what the property promises for a job mentions only that job's files), the same
+    job on a fresh comparer as a differential, and the session model `c04.session` (fold of the per-job model, parser chosen
+    per name by the generated table) on the staged bytes of every job + the final stage."""
+    cases = gen_session_cases(ctx)
+    res = pool.pmap("impl.merge", "impl_session", [[{k: v for k, v in c.items() if k in ("jobs", "quiet", "verdicts", "file_verdict")}] for c in cases],
+                    timeout=30.0, batch=2)
+    lines, expect, idx = [], [], []
+    for i, (c, r) in enumerate(zip(cases, res)):
+        out.count(c["tag"])
+        viol = session_violations(c, r)
+        flagged = set()
+        for ji, msg, fid in viol:
+            if msg == "PRECONDITION":
+                out.count("precondition-not-met")
+                continue
+            flagged.add(ji)
+            job = c["jobs"][ji] if ji is not None else {}
+            out.violations.append({"what": "session, job %s of %d (%s %s %s, on ONE comparer after %s): %s" % (
+                ji, len(c["jobs"]), job.get("mode"), job.get("fmt"), job.get("name"),
+                [(j["mode"], j["name"]) for j in c["jobs"][:ji or 0]], msg), "input": dict(c, job=ji), "finding": fid})
+            out.count("violation." + (fid or "NEW"))
+        if "r" not in r:
+            continue
+        rs = r["r"]
+        raised = False
+        for ji, (job, v) in enumerate(zip(c["jobs"], rs["jobs"])):
+            out.evaluations += 1
+            out.count("session.%s.%s" % (job["fmt"], job["mode"]))
+            if ji > 0:
+                out.nontrivial.add(("session", job["fmt"], job["mode"], c["jobs"][ji - 1]["fmt"], v["merged"]))
+            raised = raised or "job_exc" in v or "fresh_exc" in v
+            if ji in flagged:
+                continue
+            # differential: the same job on a comparer of its own
+            same_exc = v.get("job_exc", {}).get("exc") == v.get("fresh_exc")
+            if v["merged"] != v.get("fresh_merged") or not same_exc:
+                out.disagreements.append({"op": "session-vs-fresh", "case": dict(c, job=ji),
+                                          "impl": "session: %s %r" % (v.get("job_exc", {}).get("exc"), (v["merged"] or "")[:160]),
+                                          "model": "fresh comparer: %s %r" % (v.get("fresh_exc"), (v.get("fresh_merged") or "")[:160])})
+            else:
+                a = [(x["caps"], x["skips"], x["missing"], x["merge_file"]) for x in v["merge_calls"]]
+                b = [(x["caps"], x["skips"], x["missing"], x["merge_file"]) for x in v.get("fresh_calls", [])]
+                if a != b:
+                    out.disagreements.append({"op": "session-merge-args", "case": dict(c, job=ji), "impl": repr(a)[:300], "model": repr(b)[:300]})
+        if not raised:
+            tot = [{} for _ in rs.get("summary", [])]
+            for v in rs["jobs"]:
+                for t, fs in zip(tot, v.get("fresh_summary", [])):
+                    for k, x in fs.items():
+                        t[k] = t.get(k, 0) + x
+            if tot != [dict(s0) for s0 in rs.get("summary", [])]:
+                out.disagreements.append({"op": "session-summary", "case": c, "impl": json.dumps(rs.get("summary"))[:300], "model": json.dumps(tot)[:300]})
+        line = session_line(c, rs)
+        if line is None:
+            out.count("session.outside-model-language")
+            continue
+        lines.append(line)
+        expect.append(session_expect(c, rs))
+        idx.append(i)
+    model = C.run_driver_parallel(lines) if (ctx.model_ok and lines) else []
+    for l, e, m, i in zip(lines, expect, model, idx):
+        if e != m:
+            out.disagreements.append({"op": "c04.session", "case": cases[i], "impl": e[:400], "model": m[:400]})
+    out.contracts["session_replays"] = len(lines)
+    # parser selection per NAME: the generated table against the real getParser on look-alike names
+    rng = ctx.rng("c04-names")
+    parts = ["strings", "string", "values", "notes", "a", ".xml", ".xml", ".properties", ".dtd", ".ini", ".inc", ".ftl", ".po", ".pot", ".orig", ".txt", "/",
+             "-more", "_", ".", "xml", "x", "\n"]
+    names = sorted({n for ns in SESSION_NAMES.values() for n in ns} |
+                   {"".join(rng.choice(parts) for _ in range(rng.randrange(1, 5))) for _ in range(ctx.n(300, 3000))})
+    caps = pool.pmap("impl.merge", "impl_caps_of", [[names]], timeout=30.0, batch=1)[0]
+    if "r" in caps and ctx.model_ok:
+        got = C.run_driver_parallel(["c04.capsof " + C.enc(n) for n in names])
+        for n, a, b in zip(names, caps["r"], got):
+            out.evaluations += 1
+            if ("none" if a is None else str(a)) != b:
+                out.disagreements.append({"op": "c04.capsof", "case": n, "impl": str(a), "model": b})
+        for kind, ns in SESSION_NAMES.items():
+            for n in ns:
+                a = caps["r"][names.index(n)]
+                if (a is None) != (kind == "unknown"):
+                    out.notes.append("name table of the session generator is stale: %s is listed as %s, getParser says %s" % (n, kind, a))
+    elif "r" not in caps:
+        out.disagreements.append({"op": "c04.capsof", "case": "adapter", "impl": str(caps)[:200]})
+
+
 def run(ctx):
     out = Outcome()
     out.rule = ("per format: clean reference printed from 1-6 records (some with printf/XML/attribute-bearing values); localization derived by "
@@ -1056,7 +1366,11 @@ def run(ctx):
                 "truncated sequence at EOF / NUL / encoded surrogate (half of them clean); comparisons with quiet 0-4 and per-key filter verdicts "
                 "(error/warning/ignore, one or two observers, filter=None) each also run with quiet 0; direct calls of merge() with every capability value 0-7, "
                 "arbitrary / unsorted / overlapping / None spans on such byte files; raw byte strings through readFile; compareProjects on a temp tree with a merge "
-                "stage, stale files and clobber on/off; several-cut theorem classes (.properties, .dtd) with predicted staged text")
+                "stage, stale files and clobber on/off; several-cut theorem classes (.properties, .dtd) with predicted staged text. Round 5: SESSIONS - "
+                "one ContentComparer handles 2-6 compare/add/remove jobs below one merge stage, mixing formats and look-alike names (strings.xml, "
+                "strings-more.xml, notes.xml, values.xml, foo.properties.orig, a.inc, a.ini, names without extension, sub-directories), CRLF / "
+                "ill-formed bytes, quiet 0-4, optional verdict tables; per job the property oracle (what it promises mentions only that job's files), "
+                "the same job on a fresh comparer, and the session model c04.session; parser selection on ~300 generated look-alike names (c04.capsof)")
     cases = gen_cases(ctx)
     res = pool.pmap("impl.merge", "impl_compare_merge",
                     [[c["fmt"], c["ref"], c["l10n"], c["mode"]] for c in cases], timeout=10.0, batch=8)
@@ -1107,6 +1421,7 @@ def run(ctx):
     run_direct(ctx, out)
     run_decode(ctx, out)
     run_projects(ctx, out)
+    run_sessions(ctx, out)
     return out
 
 
@@ -1119,6 +1434,10 @@ def replay(payload):
     res = []
     for v in payload.get("violations", []):
         c = v["input"]
+        if "jobs" in c:                                      # session on one comparer
+            r = pool.pmap("impl.merge", "impl_session", [[{k: x for k, x in c.items() if k in ("jobs", "quiet", "verdicts", "file_verdict")}]], timeout=60.0)[0]
+            res.append({"input": c, "oracle": ["job %s: %s" % (ji, m) for ji, m, _ in session_violations(c, r) if m != "PRECONDITION"]})
+            continue
         if "files" in c:                                     # compareProjects
             r = pool.pmap("impl.merge", "impl_compare_projects", [[{k: x for k, x in c.items() if k != "expect"}]], timeout=30.0)[0]
             res.append({"input": c, "oracle": project_oracle(c, r)})
